@@ -16,6 +16,13 @@ Inductive sv :=
 | SPrim (pa : path) (p : prim) (z : Z)
 | SNode (pa : path) (t : tyid) (kids : list sv).
 
+(** a node seen as a field of its parent: its name (last path component) and, for a primitive, its declared
+    type and value *)
+Definition sv_path (v : sv) : path := match v with SPrim pa _ _ => pa | SNode pa _ _ => pa end.
+Definition last_name (p : path) : string := match rev p with n :: _ => pn_name n | [] => "" end.
+Definition kid_info (k : sv) : string * option (string * Z) :=
+  (last_name (sv_path k), match k with SPrim _ p z => Some (pname p, z) | SNode _ _ _ => None end).
+
 Fixpoint events_of (v : sv) : list event :=
   match v with
   | SPrim pa p z => [mkEvent pa (TyN (pname p)) (Some z)]
